@@ -106,7 +106,7 @@ def cfgFor (h : Hist) (n : Nat) : Cfg :=
     loc := fun hdr => match h.locs.find? (fun l => l.n = n && l.k = k && l.hdr = hdr) with
       | some l => if l.ok then some l.g else none
       | none => none,
-    swrTimeout := if h.swrNs > 0 then h.swrNs else Generated.defaultSWRTimeoutNs }
+    swrTimeout := swrTimeoutOf h.swrNs }
 
 /-- Canonicalisation of the Age field: Go prints `int(d.Seconds())`, a float64 computation that
     may round x.999999999 s up once x exceeds 2^22 s; the model floors. Beyond that threshold
